@@ -22,9 +22,10 @@ PLAN = {
         "bounded_fns": ["increment_decrement_optimization", "number_literal_is_power_of_two (body: decimal-string arithmetic)"],
     },
     "C07": {
-        "units": [(E, ["unsafe_erc20_operation_vulnerability", "floating_pragma_vulnerability", "divide_before_multiply_vulnerability"])],
+        "units": [(E, ["unsafe_erc20_operation_vulnerability", "floating_pragma_vulnerability", "divide_before_multiply_vulnerability"]),
+                  ("det_vuln", None)],
         "native": "c07",
-        "bounded_fns": ["unprotected_selfdestruct_vulnerability"],
+        "bounded_fns": [],
     },
 }
 
@@ -36,9 +37,9 @@ PLAN.update({
                             "sstore_optimization", "get_32_byte_storage_variables"]},
     "C09": {"units": [("det_gate", None)], "native": "c09",
             "bounded_fns": ["get_solidity_version_from_source_unit (regex-based version extractor: run on the whole version domain by the native check)"]},
-    "C04": {"units": [(E, ALL_EXPR), ("slots", None), ("det_decl", None), ("det_gate", None)], "walker": True, "native": "c04", "native_profiles": ["release", "nochecks"],
+    "C04": {"units": [(E, ALL_EXPR), ("slots", None), ("det_decl", None), ("det_gate", None), ("det_vuln", None)], "walker": True, "native": "c04", "native_profiles": ["release", "nochecks"],
             "bounded_fns": ["every detector not listed under functions_under_contract (all 30 detectors are run on the totality corpus)"]},
-    "C19": {"units": [(E, ALL_EXPR), ("det_decl", None)], "native": "c19",
+    "C19": {"units": [(E, ALL_EXPR), ("det_decl", None), ("det_vuln", None)], "native": "c19",
             "bounded_fns": ["detectors outside units det_expr / det_decl (whole file vs. all-but-one-item-blanked, bounded)"]},
 })
 
